@@ -272,11 +272,14 @@ func extractBackend(p *Program, name, pkgPath string) (*backend, error) {
 		if !ok {
 			return true
 		}
-		fn, ok := calleeOf(info, call).(*types.Func)
-		if !ok || fn.Pkg() != pk.Types {
+		fn := calleeOf(info, call)
+		if fn == nil || fn.Pkg() != pk.Types {
 			return true
 		}
-		pi, qi, ok := prepareHelper(pk, fn)
+		if _, isBuiltinOrType := fn.(*types.TypeName); isBuiltinOrType {
+			return true
+		}
+		pi, qi, ok := prepareHelperObj(pk, fn, b.Perform.Body)
 		if !ok || pi >= len(call.Args) || qi >= len(call.Args) {
 			return true
 		}
@@ -1150,15 +1153,71 @@ func (env *localEnv) constOnlyString(e ast.Expr, depth int) (string, bool) {
 // prepareHelper: fn prepares its query parameter (index qi) on the transaction it is given and
 // stores the statement through its **sql.Stmt parameter (index pi).
 func prepareHelper(pk *packages.Package, fn *types.Func) (pi, qi int, ok bool) {
-	fd := funcDeclOf(pk, fn)
-	if fd == nil || fd.Body == nil {
+	return prepareHelperObj(pk, fn, nil)
+}
+
+// closureOf: the function literal a local variable is defined as (`v := func(…) {…}`), under root.
+func closureOf(info *types.Info, root ast.Node, v types.Object) *ast.FuncLit {
+	var lit *ast.FuncLit
+	n := 0
+	if root == nil || v == nil {
+		return nil
+	}
+	ast.Inspect(root, func(nd ast.Node) bool {
+		as, ok := nd.(*ast.AssignStmt)
+		if !ok || len(as.Lhs) != len(as.Rhs) {
+			return true
+		}
+		for i, l := range as.Lhs {
+			if id, ok := l.(*ast.Ident); ok && (info.Defs[id] == v || info.Uses[id] == v) {
+				n++
+				if fl, ok := ast.Unparen(as.Rhs[i]).(*ast.FuncLit); ok {
+					lit = fl
+				}
+			}
+		}
+		return true
+	})
+	if n != 1 {
+		return nil
+	}
+	return lit
+}
+
+// prepareHelperObj is prepareHelper for a callee that is a function of the package or a local
+// closure defined once under root (it may capture the transaction).
+func prepareHelperObj(pk *packages.Package, callee types.Object, root ast.Node) (pi, qi int, ok bool) {
+	info := pk.TypesInfo
+	var body *ast.BlockStmt
+	var params []types.Object
+	switch c := callee.(type) {
+	case *types.Func:
+		fd := funcDeclOf(pk, c)
+		if fd == nil || fd.Body == nil {
+			return 0, 0, false
+		}
+		body = fd.Body
+		sig := c.Type().(*types.Signature)
+		for i := 0; i < sig.Params().Len(); i++ {
+			params = append(params, sig.Params().At(i))
+		}
+	case *types.Var:
+		lit := closureOf(info, root, c)
+		if lit == nil {
+			return 0, 0, false
+		}
+		body = lit.Body
+		for _, f := range lit.Type.Params.List {
+			for _, nm := range f.Names {
+				params = append(params, info.Defs[nm])
+			}
+		}
+	default:
 		return 0, 0, false
 	}
-	info := pk.TypesInfo
-	sig := fn.Type().(*types.Signature)
 	parIdx := func(o types.Object) int {
-		for i := 0; i < sig.Params().Len(); i++ {
-			if sig.Params().At(i) == o {
+		for i, p := range params {
+			if p == o && o != nil {
 				return i
 			}
 		}
@@ -1166,7 +1225,7 @@ func prepareHelper(pk *packages.Package, fn *types.Func) (pi, qi int, ok bool) {
 	}
 	pi, qi = -1, -1
 	var prepared types.Object
-	ast.Inspect(fd.Body, func(n ast.Node) bool {
+	ast.Inspect(body, func(n ast.Node) bool {
 		switch x := n.(type) {
 		case *ast.AssignStmt:
 			if len(x.Rhs) == 1 {
